@@ -1,2 +1,2 @@
-# KN4 (apply to <doc/>)
+# KN4 repaired by a fix: commit - regression case, must pass (apply to <doc/>)
 <xsl:stylesheet version="1.0" xmlns:xsl="http://www.w3.org/1999/XSL/Transform"><xsl:template match="/"><xsl:element name="zz:e" namespace=""></xsl:element></xsl:template></xsl:stylesheet>
